@@ -243,6 +243,9 @@ pub fn table(ctx: &Ctx) -> Report {
         adds(format!("ldaps://127.0.0.1:{}", pe), Stream::Unix, Expect::Err(vec!["MismatchedStreamType"]), "Unix stream with ldaps scheme");
         adds("ldapi:///".into(), Stream::TcpTo(pe), Expect::Err(vec!["MismatchedStreamType"]), "TCP stream with ldapi scheme");
         adds("ldapi:///".into(), Stream::Invalid, Expect::Err(vec!["MismatchedStreamType"]), "invalid (cloned) stream with ldapi");
+        adds(format!("ldapi://{}", pct_path(&unix_plain)), Stream::Invalid, Expect::Err(vec!["MismatchedStreamType"]), "invalid (cloned) stream with an ldapi URL naming a live socket");
+        adds(format!("ldapi://{}", pct_path(&unix_plain)), Stream::TcpTo(pe), Expect::Err(vec!["MismatchedStreamType"]), "TCP stream with an ldapi URL naming a live socket");
+        adds(format!("ldaps://127.0.0.1:{}", pe), Stream::Invalid, Expect::Err(vec!["MismatchedStreamType"]), "invalid (cloned) stream with ldaps");
         adds(format!("ldap://127.0.0.1:{}", pe), Stream::Invalid, Expect::Err(vec!["MismatchedStreamType"]), "invalid (cloned) stream with ldap");
         // --- timeout bounds the whole establishment, including StartTLS ---
         cases.push(Case { url: format!("ldap://127.0.0.1:{}", ps), starttls: true, timeout_ms: Some(300), stream: Stream::None, expect: Expect::Err(vec!["Timeout"]), max_ms: Some(6_000), note: "StartTLS against a server that never answers: the connection timeout must fire" });
